@@ -384,6 +384,10 @@ theorem genCond_nodup (c : Cond) : ∀ (g : GState) (negate : Bool) (label : Lbl
     intro g negate label
     simp only [genCond, truthETest]
     by_cases h : e.topArithm = true <;> simp [labels_treeLines, h]
+  | cmpR op e y eLeft =>
+    intro g negate label
+    simp only [genCond, cmpRTest]
+    simp [labels_treeLines, branchInstr_nodup]
   | and a b iha ihb =>
     intro g negate label
     cases negate with
@@ -789,6 +793,17 @@ theorem genCond_targets (c : Cond) : ∀ (g : GState) (negate : Bool) (label : L
       | cons x xs ih => simpa [targets] using ih
     simp only [genCond, truthETest] at hl ⊢
     by_cases h : e.topArithm = true <;> simp [htt, targets, labels_treeLines, h] at hl ⊢ <;> exact hl
+  | cmpR op e y eLeft =>
+    intro g negate label l hl
+    have htt : targets (treeLines e) = [] := by
+      unfold treeLines
+      generalize treeOps e = t
+      induction t with
+      | nil => rfl
+      | cons x xs ih => simpa [targets] using ih
+    simp only [genCond, cmpRTest] at hl ⊢
+    simp [htt, targets, labels_treeLines] at hl ⊢
+    exact hb _ _ _ l hl
   | and a b iha ihb =>
     intro g negate label l hl
     cases negate with
